@@ -54,7 +54,13 @@ LEVEL_NOTE = ("The exhaustive 2^32 sweep is done by the driver as a SELECTION pr
               "on edge and random lanes in both builds (that the lifting is lane-by-lane IDENTICAL to the scalar function is C04's claim, not repeated here); "
               "(9) madd / lerp are stated only when no exact intermediate value (plus its bound) leaves the finite range - an overflowing evaluation may or may "
               "not return an infinity; (10) distributions: lower == upper at zeros, denormals and FLT_MAX, ranges one float wide, denormal ranges, ranges whose "
-              "width is FLT_MAX and ranges whose width is not a float any more, streams of 4100 / 65600 draws, a full period of makeRandomColor")
+              "width is FLT_MAX and ranges whose width is not a float any more, streams of 4100 / 65600 draws, a full period of makeRandomColor; (11) distribution OBJECTS are "
+              "abstract data types without abstract state (ScalarKernelsDistADT: New / Copy / Draw(generator type, 1 or 20 values) on uniform_real_distribution<float / double>, "
+              "pcg32_biased_float_distribution (state = stream position only) and makeRandomColor in four orders): histories from TLC's state graph (all paths up to a budgeted "
+              "length, one history per transition label, seeded walks) hand ONE object (and copies of a used object) pcg32, mt19937_64, minstd_rand, ranlux24 (thorough: also a "
+              "range-end generator) in every order; per Draw TLC decides that the used / copied object returned exactly what a fresh object fed a twin generator returned, that each "
+              "value is l + (raw - min)(u - l) / (max - min) within the accumulated rounding bound (exact arithmetic on the recorded raw output), and the range clause; ranges wider "
+              "than FLT_MAX are not part of the histories (they stay judged - and known - on the stream records)")
 TECHNIQUE = ("TLA+ specification of IEEE-754 bit patterns and exact dyadic arithmetic on limbs; laws model-checked by TLC on a complete toy format; "
              "exhaustive 2^32 driver sweep as selection, TLC validation of every recorded result; TLC-enumerated operand grids replayed on the real functions")
 SPEC = os.path.join(VERIF, "spec", "math")
@@ -201,6 +207,10 @@ def signature(item, failed, cls):
         return "%s/Table(all-floats%s)/%s" % (TABLE_FN[a["fn"]], ",channel=%d" % a["c"] if a["fn"] != "cvt_f" else "", failed)
     if k == "pack":
         return "%s/Table(sampled-channels)/%s" % (TABLE_FN[item["step"]["arg"]["fn"]], failed)
+    if k == "dhist":
+        if failed == "range" and cls.get("class") == "(upper-lower)/(max-min)<MIN_NORMAL":      # one code site whatever the generator / the object's history
+            return "%s/Stream(%s)/range" % (HIST_FN[rec["kind"]], cls["class"])
+        return "%s/Draw(%s,%s)/%s" % (HIST_FN[rec["kind"]], cls.get("gen", "-"), cls.get("class", "-"), failed)
     if k == "dist":
         fn = DIST_FN[item["step"]["arg"]["kind"]]
         if cls.get("class") == "upper-lower>FLT_MAX":      # one code site whatever the generator: the width is computed as upper - lower
@@ -209,7 +219,9 @@ def signature(item, failed, cls):
     return "rkcommon/%s/%s" % (k, failed)
 
 
-OUTPUTS = {"runs": ["runs", "truncated"], "pack": ["tabs", "vecs"], "dist": ["a", "b"], "dru": ["q"]}
+HIST_FN = {"urd_f": "random.h/uniform_real_distribution<float>", "urd_d": "random.h/uniform_real_distribution<double>",
+           "biased": "random.h/pcg32_biased_float_distribution", "color": "random.h/makeRandomColor"}
+OUTPUTS = {"dhist": ["steps"], "runs": ["runs", "truncated"], "pack": ["tabs", "vecs"], "dist": ["a", "b"], "dru": ["q"]}
 
 
 def template(rec):
@@ -227,6 +239,8 @@ def rebuild_record(item, obs):
         rec["tabs"], rec["vecs"] = obs["tabs"], obs["vecs"]
     elif k == "dist":
         rec["a"], rec["b"] = obs["a"], obs["b"]
+    elif k == "dhist":
+        rec["steps"] = hist_steps(item["step"]["arg"]["steps"], obs["steps"])
     elif k == "dru":
         rec["q"] = obs["q"]
     elif "lane" in item:
@@ -237,7 +251,15 @@ def rebuild_record(item, obs):
 
 
 def short(rec):
-    s = {k: v for k, v in rec.items() if k not in ("runs", "tabs", "vecs")}
+    s = {k: v for k, v in rec.items() if k not in ("runs", "tabs", "vecs", "steps")}
+    if "steps" in rec:      # the first step whose used object and fresh object differ, else the plan only
+        s["plan"] = [[st["a"], st.get("gen"), st.get("cls")] for st in rec["steps"]]
+        for st in rec["steps"]:
+            if st["a"] == "Draw" and st["v"] != st["fv"]:
+                j = next(i for i in range(min(len(st["v"]), len(st["fv"]))) if st["v"][i] != st["fv"][i]) if len(st["v"]) == len(st["fv"]) else 0
+                s["first_difference"] = {"gen": st["gen"], "cls": st["cls"], "draw": j, "raw": unlimbs({"n": 0, "m": st["raws"][j]}) if j < len(st["raws"]) else None,
+                                         "used_object": st["v"][j:j + 1], "fresh_object": st["fv"][j:j + 1]}
+                break
     if "runs" in rec:
         s["runs"] = "%d runs" % len(rec["runs"])
     if "tabs" in rec:
@@ -266,6 +288,11 @@ def judge_items(chk, exes, items, tag, chunks=4, before_report=None):
     if vac:
         raise tla.InfraError("vacuity guard: the streams recorded for different seeds / sequence ids are identical (%s): reproducibility is not exercised"
                              % json.dumps(items[vac[0]]["step"])[:300])
+    for i in rej:
+        g = [f for f in rej[i][0] if f.startswith("guard:")]
+        if g:
+            raise tla.InfraError("binding guard of a distribution-object history failed (%s): the scenario was not exercised as planned: %s"
+                                 % (g, json.dumps(items[i]["step"])[:400]))
     for i, it in enumerate(items):
         if it["rec"].get("truncated") and i not in rej:
             raise tla.InfraError("a table was cut off by the recorder (more than 4096 runs) and its prefix shows no failure: cannot be decided")
@@ -487,6 +514,68 @@ def dist_steps(rnd, nconf, ndraw):
     return steps, pairs
 
 
+# ---------------------------------------------------------------------------------------------
+# distribution OBJECTS: histories of ScalarKernelsDistADT (TLC's state graph) with ranges / seeds filled in
+# ---------------------------------------------------------------------------------------------
+def D(x):
+    u = struct.unpack(">Q", struct.pack(">d", x))[0]
+    return [(u >> 48) & 0xffff, (u >> 32) & 0xffff, (u >> 16) & 0xffff, u & 0xffff]
+
+
+HIST_RANGES_F = [(0.0, 1.0), (-1.0, 1.0), (10.0, 20.0), (-1000.0, 1000.0), (0.25, 0.75), (3.0, 3.0), (1.0e-30, 1.0e-20), (-1.0e6, 2.5e-3), (0.0, 1.0e-45),
+                 (-1.0e-40, 1.0e-40), (-1.7e38, 1.7e38), (0.0, 255.0), (-5.0, -1.0), (16777216.0, 16777218.0), (0.0, FLT_MAX)]
+HIST_RANGES_D = [(10.0, 20.0), (0.0, 1.0), (-1.0, 1.0), (-1.0e300, 1.0e300), (1.0e-310, 1.0e-308), (5.0, 5.0), (-1.0e6, 2.5e-3), (0.1, 0.3), (4503599627370496.0, 4503599627370498.0)]
+
+
+def hist_plans(ag, rnd, budget, walks, walk_len):
+    """Histories from TLC's state graph: every path up to the longest length within the budget + seeded random walks; ranges and seeds are filled in here."""
+    K = 1
+    while K < 4 and adt.count_paths(ag, K + 1) <= budget:
+        K += 1
+    cover, labels = [], set()
+    for h in adt.edge_cover(ag):      # one shortest history per distinct label (kind, action, arguments, class) of the graph
+        lab = json.dumps(h[-1], sort_keys=True)
+        if lab not in labels:
+            labels.add(lab)
+            cover.append(h)
+    hs = (adt.all_paths(ag, K, budget * 2) or []) + cover + adt.random_walks(ag, walks, walk_len, rnd.randint(0, 2 ** 30))
+    steps, seen = [], set()
+    for h in hs:
+        if not h or not any(st["a"] in ("Draw", "Colors") for st in h):
+            continue
+        kind = h[0]["arg"]["kind"]
+        key = json.dumps([[st["a"], st["arg"]] for st in h], sort_keys=True)
+        rep = key in seen
+        seen.add(key)
+        n = len(steps)
+        if kind == "urd_d":
+            lo, hi = HIST_RANGES_D[n % len(HIST_RANGES_D)]
+            lo, hi = D(lo), D(hi)
+        else:
+            lo, hi = HIST_RANGES_F[n % len(HIST_RANGES_F)] if not rep or rnd.random() < 0.5 else tuple(sorted([rnd.uniform(-1000, 1000), rnd.uniform(-1000, 1000)]))
+            lo, hi = F(lo), F(hi)
+        steps.append({"a": "DistHist", "arg": {"kind": kind, "lo": lo, "hi": hi, "seed": rnd.choice([0, 1, 42, 2147483647, rnd.randint(0, 2 ** 31 - 1)]),
+                                               "seq": rnd.choice([0, 1, 7, -3, rnd.randint(-2 ** 31, 2 ** 31 - 1)]),
+                                               "steps": [{"a": st["a"], "arg": st["arg"], "cls": st["cls"]} for st in h]}})
+    return steps, K, len(seen)
+
+
+def hist_steps(plan, obs):
+    """One record per step: the plan's action / arguments / class next to what the driver recorded (data movement only)."""
+    if len(plan) != len(obs):
+        raise tla.InfraError("the driver performed %d of the %d steps of a distribution-object history" % (len(obs), len(plan)))
+    out = []
+    for p, o in zip(plan, obs):
+        st = {"a": p["a"], "cls": p["cls"]}
+        if p["a"] == "Draw":
+            st.update({"gen": p["arg"]["gen"], "n": p["arg"]["n"], "obj": p["arg"]["obj"], "skip": p["arg"]["skip"]})
+            st.update({k: o[k] for k in ("v", "fv", "raws", "fraws", "gmin", "gmax")})
+        elif p["a"] == "Colors":
+            st.update({"n": p["arg"]["n"], "idx": o["idx"], "v": o["v"]})
+        out.append(st)
+    return out
+
+
 def corruption_controls(items):
     """Copies of records of this run with ONE field altered: TLC must reject each (binding of the judge to the data)."""
     out = []
@@ -510,6 +599,11 @@ def corruption_controls(items):
         add(first(lambda it: it["rec"]["k"] == "rcp_safe" and it["variant"] == v and it["rec"]["x"] == one), "rcp_safe(1.0) result with the sign flipped (%s)" % v,
             lambda r: r["r"].__setitem__(0, r["r"][0] ^ 32768))
     add(first(lambda it: it["rec"]["k"] == "dist"), "second stream with one bit changed", lambda r: r["b"][0].__setitem__(1, r["b"][0][1] ^ 1))
+    def flip_used(r):
+        st = next(x for x in r["steps"] if x["a"] == "Draw" and x["cls"].startswith("served-other-range"))
+        st["v"][0][-1] ^= 1
+    add(first(lambda it: it["rec"]["k"] == "dhist" and it["rec"]["kind"] == "urd_f" and any(x["a"] == "Draw" and x["cls"].startswith("served-other-range") for x in it["rec"]["steps"])),
+        "history: one value of an object that served another generator type before, last bit changed", flip_used)
     add(first(lambda it: it["rec"]["k"] == "runs"), "table with one run's byte lowered", lambda r: r["runs"][len(r["runs"]) // 2].__setitem__("v", 0))
     add(first(lambda it: it["rec"]["k"] == "pack"), "packed word with channels x and y exchanged",
         lambda r: [v.__setitem__("w", [v["w"][0], (v["w"][1] % 256) * 256 + v["w"][1] // 256]) for v in r["vecs"]])
@@ -567,6 +661,8 @@ def run(chk, replay=None):
     # -Xss: the limb operators recurse once per digit; aligning the largest double with the smallest denormal takes 140 digits
     f_mc = pool.submit(tla.run_tlc, os.path.join(SPEC, "ScalarKernelsMC.tla"), os.path.join(SPEC, "ScalarKernelsMC.cfg" if quick else "ScalarKernelsMC_thorough.cfg"),
                        8, 3000, env=BIG_STACK)
+    f_adt = pool.submit(adt.build_graph, os.path.join(SPEC, "ScalarKernelsDistADT.tla"),
+                        os.path.join(SPEC, "ScalarKernelsDistADT.cfg" if quick else "ScalarKernelsDistADT_thorough.cfg"), 4, 1500, "c07-distadt")
     level = "0" if quick else "1"
     cases = funcheck.gen_cases(chk, SPEC, "ScalarKernelsGen", "ScalarKernelsGen.cfg", "c07-gen", env=dict(BIG_STACK, C07_LEVEL=level),
                                what="operand grids of clamp / divRoundUp / sign / lerp / madd / deg2rad; closed form of divRoundUp = the definition's solution")
@@ -614,6 +710,49 @@ def run(chk, replay=None):
     tsteps += [{"a": "Pack", "arg": {"fn": fn, "seed": chk.seed, "nvec": 400 if quick else 5000, "den": 4096}} for fn in ("cvt_v", "srgba8")]
     dsteps, pairs = dist_steps(rnd, 160 if quick else 2400, 48)
     f_tab = pool.submit(run_steps, exes["simd"], tsteps + dsteps, "c07-tables", 6000)
+
+    # ---- distribution objects as abstract data types: histories from TLC's state graph of ScalarKernelsDistADT
+    ag, r_adt = f_adt.result()
+    chk.add_model("ScalarKernelsDistADT", r_adt, "distribution objects as ADTs without abstract state (ghost history only): %d abstract states, %d transitions; "
+                  "invariants TypeOK, GhostOK" % (len(ag.states), ag.nedges))
+    hsteps, hK, hdistinct = hist_plans(ag, rnd, 400 if quick else 6000, 400 if quick else 3000, 7 if quick else 9)
+    hobs = run_steps(exes["simd"], hsteps, "c07-disthist", 3000)
+    hcount = {}
+    for st, o in zip(hsteps, hobs):
+        a = st["arg"]
+        rec = {"k": "dhist", "kind": a["kind"], "lo": a["lo"], "hi": a["hi"], "steps": hist_steps(a["steps"], o["steps"])}
+        items.append({"variant": "simd", "step": st, "rec": rec})
+        for x in rec["steps"]:
+            for key in (["DistHist.%s(%s)" % (x["a"], a["kind"])] + (["DistHist.Draw(%s,%s)" % (a["kind"], x["cls"]), "DistHist.Draw(%s,gen=%s)" % (a["kind"], x["gen"])] if x["a"] == "Draw" else [])
+                        + (["DistHist.Colors(%s)" % x["cls"]] if x["a"] == "Colors" else [])):
+                hcount[key] = hcount.get(key, 0) + 1
+            if x["a"] == "Draw":
+                chk.cov["object_draws_compared_with_a_fresh_object"] = chk.cov.get("object_draws_compared_with_a_fresh_object", 0) + len(x["v"])
+    chk.cov["action_counts"].update(hcount)
+    gens = ["pcg32", "mt19937_64", "minstd_rand", "ranlux24"] + ([] if quick else ["edge32"])
+    need = ["DistHist.Copy(%s)" % k for k in ("urd_f", "urd_d", "biased")] + ["DistHist.New(%s)" % k for k in ("urd_f", "urd_d", "biased")]
+    need += ["DistHist.Draw(%s,%s)" % (k, c) for k in ("urd_f", "urd_d") for c in ("fresh", "served-same-type", "served-other-range", "served-other-range,copy", "served-same-type,copy", "fresh,copy")]
+    need += ["DistHist.Draw(%s,gen=%s)" % (k, g) for k in ("urd_f", "urd_d") for g in gens]
+    need += ["DistHist.Draw(biased,%s)" % c for c in ("fresh", "used", "used,copy", "fresh,copy")] + ["DistHist.Colors(%s)" % c for c in ("up", "down", "stride7", "repeat")]
+    chk.require_actions(need)
+    # both orders of every pair of generator types of different range on ONE object (the second type's draws are the ones judged)
+    orders = set()
+    for st in hsteps:
+        served = {}
+        for x in st["arg"]["steps"]:
+            if x["a"] == "Copy":
+                served[x["arg"]["dst"]] = list(served.get(x["arg"]["src"], []))
+            if x["a"] == "Draw" and st["arg"]["kind"] in ("urd_f", "urd_d"):
+                for g in served.get(x["arg"]["obj"], []):
+                    if g != x["arg"]["gen"]:
+                        orders.add((st["arg"]["kind"], g, x["arg"]["gen"]))
+                served.setdefault(x["arg"]["obj"], []).append(x["arg"]["gen"])
+    missing = [(k, g, h) for k in ("urd_f", "urd_d") for g in gens for h in gens if g != h and (k, g, h) not in orders]
+    if missing:
+        raise tla.InfraError("vacuity guard: no history hands one %s object the generator types %s in this order" % (missing[0][0], missing[0][1:]))
+    chk.cov["object_histories"] = {"histories": len(hsteps), "distinct_plans": hdistinct, "all_paths_up_to": hK, "ordered_generator_type_pairs_on_one_object": len(orders),
+                                   "generator_types": gens, "kinds": sorted(HIST_FN), "ranges": len(HIST_RANGES_F) + len(HIST_RANGES_D)}
+    chk.add_sample({"kind": "distribution-object history (spec -> plan -> code -> spec)", "plan": [[x["a"], x["arg"]] for x in hsteps[len(hsteps) // 2]["arg"]["steps"]]})
 
     tobs = f_tab.result()
     swept = 0
